@@ -255,3 +255,239 @@ Proof.
   - assert (Hh : tm_handler (tm_stop s) = false) by (unfold tm_stop; destruct (tm_cur s); reflexivity). rewrite Hh. reflexivity.
   - exists i. rewrite Hi, E. reflexivity.
 Qed.
+
+(* ---- public operations: invariant, and what is left parked (C16, C19) ---- *)
+(* public-operation invariant: no instance is left between fire and check; every instance but the current one is
+   finished, stopped before it fired, or parked and cancelled *)
+Definition inst_ok (cur : bool) (x : tinst) : Prop :=
+  match ti_phase x with
+  | TRunning => False
+  | TSending => cur = true \/ ti_cancelled x = true
+  | TPending => cur = true /\ ti_cancelled x = false
+  | _ => True
+  end.
+Definition pinv (s : tstate) : Prop :=
+  forall i x, nth_error (tm_insts s) i = Some x -> inst_ok (match tm_cur s with Some c => Nat.eqb c i | None => false end) x.
+
+
+Lemma pinv_init : pinv tm_init.
+Proof. intros i x H. destruct i; discriminate. Qed.
+
+Lemma pinv_stop s : pinv s -> pinv (tm_stop s) /\ tm_cur (tm_stop s) = None.
+Proof.
+  intro I. unfold tm_stop. destruct (tm_cur s) as [c|] eqn:Ec; cbn [tm_cur tm_insts]; [|split; [|reflexivity]].
+  - split; [|reflexivity]. intros i x H. cbn [tm_insts tm_cur] in *. rewrite nth_upd in H. destruct (Nat.eqb_spec c i) as [->|Hne].
+    + destruct (nth_error (tm_insts s) i) as [y|] eqn:Ey; [|discriminate]. cbn in H. inversion H; subst x. clear H.
+      specialize (I i y Ey). rewrite Ec, Nat.eqb_refl in I. unfold inst_ok in *.
+      destruct (ti_phase y) eqn:Ep; cbn; rewrite ?Ep; auto.
+    + specialize (I i x H). rewrite Ec in I. destruct (Nat.eqb_spec c i); [contradiction|]. exact I.
+  - intros i x H. cbn [tm_insts tm_cur] in *. specialize (I i x H). rewrite Ec in I. exact I.
+Qed.
+
+Lemma nth_error_app_len2 {A} (l : list A) x : nth_error (l ++ [x]) (length l) = Some x.
+Proof. induction l; cbn; auto. Qed.
+
+Lemma pinv_register s h v : pinv s -> pinv (tm_register h v s).
+Proof.
+  intro I. unfold tm_register. destruct (tm_handler s && N.eqb (tm_v s) v && N.eqb (tm_h s) h); [exact I|].
+  destruct (pinv_stop s I) as [I1 C1]. set (s1 := tm_stop s) in *.
+  intros i x H. cbn [tm_insts tm_cur] in *.
+  destruct (Nat.eqb_spec (length (tm_insts s1)) i) as [<-|Hne].
+  - rewrite nth_error_app_len2 in H. inversion H; subst x. cbn. auto.
+  - assert (Hi : nth_error (tm_insts s1) i = Some x).
+    { destruct (Nat.lt_ge_cases i (length (tm_insts s1))) as [Hl|Hl].
+      - rewrite nth_error_app1 in H by exact Hl. exact H.
+      - rewrite nth_error_app2 in H by exact Hl. destruct (i - length (tm_insts s1))%nat eqn:Ed; [lia|]. destruct n; discriminate. }
+    specialize (I1 i x Hi). rewrite C1 in I1. exact I1.
+Qed.
+
+(* the three internal steps on the current pending instance *)
+Lemma step_on s i x (f : tinst -> tinst) (s' : tstate) :
+  nth_error (tm_insts s) i = Some x ->
+  tm_insts s' = upd (tm_insts s) i f -> tm_cur s' = tm_cur s ->
+  (forall c, inst_ok c x -> c = true -> inst_ok true (f x)) ->
+  tm_cur s = Some i -> pinv s -> pinv s'.
+Proof.
+  intros Hx Hi Hc Hf Hcur I j y H. rewrite Hi, nth_upd in H. rewrite Hc, Hcur.
+  destruct (Nat.eqb_spec i j) as [<-|Hne].
+  - rewrite Hx in H. cbn in H. inversion H; subst y. specialize (I i x Hx). rewrite Hcur, Nat.eqb_refl in I. apply (Hf true I eq_refl).
+  - specialize (I j y H). rewrite Hcur in I. destruct (Nat.eqb_spec i j); [contradiction|]. exact I.
+Qed.
+
+Lemma upd_upd {A} (l : list A) i f g : upd (upd l i f) i g = upd l i (fun x => g (f x)).
+Proof. revert i. induction l as [|a l IH]; intro i; cbn; [reflexivity|]. destruct i; cbn; [reflexivity|]. rewrite IH. reflexivity. Qed.
+Lemma upd_ext {A} (l : list A) i f g x : nth_error l i = Some x -> f x = g x -> upd l i f = upd l i g.
+Proof. revert i. induction l as [|a l IH]; intros i H E; cbn; [reflexivity|]. destruct i; cbn in *; [inversion H; subst; rewrite E; reflexivity|]. rewrite (IH i H E). reflexivity. Qed.
+
+Lemma fire_eq s i x : nth_error (tm_insts s) i = Some x -> ti_phase x = TPending ->
+  tm_step s (TFire i) = {| tm_handler := tm_handler s; tm_h := tm_h s; tm_v := tm_v s; tm_cur := tm_cur s;
+                           tm_insts := upd (tm_insts s) i (set_phase TRunning); tm_delivered := tm_delivered s |}.
+Proof. intros Hx Hp. unfold tm_step. rewrite Hx, Hp. reflexivity. Qed.
+Lemma check_eq s i y : nth_error (tm_insts s) i = Some y -> ti_phase y = TRunning ->
+  tm_step s (TCheck i) = {| tm_handler := tm_handler s; tm_h := tm_h s; tm_v := tm_v s; tm_cur := tm_cur s;
+                            tm_insts := upd (tm_insts s) i (set_phase (if ti_cancelled y then TDone else TSending)); tm_delivered := tm_delivered s |}.
+Proof. intros Hx Hp. unfold tm_step. rewrite Hx, Hp. reflexivity. Qed.
+
+Lemma fire_check s i x : nth_error (tm_insts s) i = Some x -> ti_phase x = TPending -> ti_cancelled x = false ->
+  let s' := tm_step (tm_step s (TFire i)) (TCheck i) in
+  tm_insts s' = upd (tm_insts s) i (set_phase TSending) /\ tm_cur s' = tm_cur s /\ tm_delivered s' = tm_delivered s /\ tm_handler s' = tm_handler s.
+Proof.
+  intros Hx Hp Hc. cbn zeta. rewrite (fire_eq s i x Hx Hp).
+  rewrite (check_eq _ i (set_phase TRunning x)); [|cbn [tm_insts]; rewrite nth_upd, Nat.eqb_refl, Hx; reflexivity|reflexivity].
+  cbn [tm_insts tm_cur tm_delivered tm_handler set_phase ti_cancelled]. rewrite Hc, upd_upd. split; [|auto].
+  apply (upd_ext _ _ _ _ x Hx). reflexivity.
+Qed.
+
+Lemma pinv_fire_noreader s : pinv s -> pinv (tm_fire_noreader s).
+Proof.
+  intro I. unfold tm_fire_noreader. destruct (tm_cur s) as [i|] eqn:Ec; [|exact I].
+  destruct (nth_error (tm_insts s) i) as [x|] eqn:Ex; [|exact I].
+  destruct (ti_phase x) eqn:Ep; try exact I.
+  pose proof (I i x Ex) as Ix. rewrite Ec, Nat.eqb_refl in Ix. unfold inst_ok in Ix. rewrite Ep in Ix. destruct Ix as [_ Hc].
+  destruct (fire_check s i x Ex Ep Hc) as (A & B & _). cbn zeta in *.
+  eapply (step_on s i x (set_phase TSending)); eauto.
+  intros c _ _. unfold inst_ok. cbn. auto.
+Qed.
+
+Lemma pinv_settle s : pinv s -> pinv (tm_settle s).
+Proof.
+  intro I. unfold tm_settle. destruct (tm_cur s) as [i|] eqn:Ec; [|exact I].
+  destruct (nth_error (tm_insts s) i) as [x|] eqn:Ex; [|exact I].
+  destruct (ti_phase x) eqn:Ep; try exact I.
+  pose proof (I i x Ex) as Ix. rewrite Ec, Nat.eqb_refl in Ix. unfold inst_ok in Ix. rewrite Ep in Ix. destruct Ix as [_ Hc].
+  destruct (fire_check s i x Ex Ep Hc) as (A & B & _). cbn zeta in *.
+  set (s1 := tm_step (tm_step s (TFire i)) (TCheck i)) in *.
+  assert (I1 : pinv s1).
+  { eapply (step_on s i x (set_phase TSending)); eauto. intros c _ _. unfold inst_ok. cbn. auto. }
+  assert (Ex1 : nth_error (tm_insts s1) i = Some (set_phase TSending x)) by (rewrite A, nth_upd, Nat.eqb_refl, Ex; reflexivity).
+  assert (Ec1 : tm_cur s1 = Some i) by (rewrite B; exact Ec).
+  assert (DE : tm_step s1 (TDeliver i) = {| tm_handler := tm_handler s1; tm_h := tm_h s1; tm_v := tm_v s1; tm_cur := tm_cur s1;
+                 tm_insts := upd (tm_insts s1) i set_sent; tm_delivered := (i, ti_h (set_phase TSending x), ti_v (set_phase TSending x)) :: tm_delivered s1 |})
+    by (unfold tm_step; rewrite Ex1; reflexivity).
+  rewrite DE.
+  eapply (step_on s1 i (set_phase TSending x) set_sent); eauto.
+  intros c _ _. unfold inst_ok. cbn. auto.
+Qed.
+
+(* ---- the reader comes back: nothing stays parked ---- *)
+Definition quiet (x : tinst) : bool := match ti_phase x with TSending | TRunning => false | _ => true end.
+Definition norun (x : tinst) : bool := match ti_phase x with TRunning => false | _ => true end.
+
+Lemma upd_app_mid {A} (pre : list A) x l f : upd (pre ++ x :: l) (length pre) f = pre ++ f x :: l.
+Proof. induction pre as [|a pre IH]; cbn; [reflexivity|]. rewrite IH. reflexivity. Qed.
+Lemma nth_app_mid {A} (pre : list A) x l : nth_error (pre ++ x :: l) (length pre) = Some x.
+Proof. induction pre; cbn; auto. Qed.
+
+Lemma resume_from_quiet : forall l pre s, tm_insts s = pre ++ l -> forallb quiet pre = true -> forallb norun l = true ->
+  forallb quiet (tm_insts (tm_resume_from (length pre) l s)) = true.
+Proof.
+  induction l as [|x l IH]; intros pre s Hs Hp Hl; cbn [tm_resume_from].
+  - rewrite Hs, app_nil_r. exact Hp.
+  - cbn [forallb] in Hl. apply andb_true_iff in Hl. destruct Hl as [Hx Hl].
+    assert (Ex : nth_error (tm_insts s) (length pre) = Some x) by (rewrite Hs; apply nth_app_mid).
+    set (s' := match ti_phase x with TSending => if ti_cancelled x then tm_step s (TAbort (length pre)) else tm_step s (TDeliver (length pre)) | _ => s end).
+    assert (Hs' : exists x', tm_insts s' = pre ++ x' :: l /\ quiet x' = true).
+    { subst s'. destruct (ti_phase x) eqn:Ep.
+      - exists x. split; [exact Hs|unfold quiet; rewrite Ep; reflexivity].
+      - exists x. split; [exact Hs|unfold quiet; rewrite Ep; reflexivity].
+      - unfold norun in Hx. rewrite Ep in Hx. discriminate.
+      - destruct (ti_cancelled x) eqn:Ec.
+        + exists (set_phase TDone x). unfold tm_step. rewrite Ex, Ep, Ec. cbn [tm_insts]. rewrite Hs, upd_app_mid. split; reflexivity.
+        + exists (set_sent x). unfold tm_step. rewrite Ex, Ep. cbn [tm_insts]. rewrite Hs, upd_app_mid. split; reflexivity.
+      - exists x. split; [exact Hs|unfold quiet; rewrite Ep; reflexivity]. }
+    destruct Hs' as (x' & Hi & Hq).
+    replace (S (length pre)) with (length (pre ++ [x'])) by (rewrite app_length; cbn; lia).
+    apply IH.
+    + rewrite Hi, <- app_assoc. reflexivity.
+    + rewrite forallb_app, Hp. cbn. rewrite Hq. reflexivity.
+    + exact Hl.
+Qed.
+
+Lemma pinv_norun s : pinv s -> forallb norun (tm_insts s) = true.
+Proof.
+  intro I. apply forallb_forall. intros x Hx. apply In_nth_error in Hx. destruct Hx as (i & Hi).
+  specialize (I i x Hi). unfold inst_ok, norun in *. destruct (ti_phase x); auto.
+Qed.
+
+Lemma parked_zero s : forallb quiet (tm_insts s) = true -> tm_parked s = 0%nat.
+Proof.
+  unfold tm_parked. induction (tm_insts s) as [|x l IH]; cbn; [reflexivity|]. intro H. apply andb_true_iff in H. destruct H as [Hx Hl].
+  unfold quiet in Hx. destruct (ti_phase x); try discriminate; cbn; apply IH; exact Hl.
+Qed.
+
+Theorem resume_leaves_nothing_parked s : pinv s -> tm_parked (tm_resume s) = 0%nat.
+Proof.
+  intro I. apply parked_zero. unfold tm_resume. apply (resume_from_quiet (tm_insts s) [] s); [reflexivity|reflexivity|apply pinv_norun; exact I].
+Qed.
+
+Lemma pinv_set_done s s' k x f : nth_error (tm_insts s) k = Some x -> tm_insts s' = upd (tm_insts s) k f -> tm_cur s' = tm_cur s ->
+  ti_phase (f x) = TDone -> pinv s -> pinv s'.
+Proof.
+  intros Hx Hi Hc Hd I j y H. rewrite Hi, nth_upd in H. rewrite Hc.
+  destruct (Nat.eqb_spec k j) as [<-|Hne].
+  - rewrite Hx in H. cbn in H. inversion H; subst y. unfold inst_ok. rewrite Hd. exact Logic.I.
+  - exact (I j y H).
+Qed.
+
+Lemma pinv_resume_from : forall l pre s, tm_insts s = pre ++ l -> pinv s -> pinv (tm_resume_from (length pre) l s).
+Proof.
+  induction l as [|x l IH]; intros pre s Hs I; cbn [tm_resume_from]; [exact I|].
+  assert (Ex : nth_error (tm_insts s) (length pre) = Some x) by (rewrite Hs; apply nth_app_mid).
+  set (s' := match ti_phase x with TSending => if ti_cancelled x then tm_step s (TAbort (length pre)) else tm_step s (TDeliver (length pre)) | _ => s end).
+  assert (Hs' : (exists x', tm_insts s' = pre ++ x' :: l) /\ pinv s').
+  { subst s'. destruct (ti_phase x) eqn:Ep; try (split; [exists x; exact Hs|exact I]).
+    destruct (ti_cancelled x) eqn:Ec.
+    - assert (E : tm_step s (TAbort (length pre)) = {| tm_handler := tm_handler s; tm_h := tm_h s; tm_v := tm_v s; tm_cur := tm_cur s;
+                    tm_insts := upd (tm_insts s) (length pre) (set_phase TDone); tm_delivered := tm_delivered s |})
+        by (unfold tm_step; rewrite Ex, Ep, Ec; reflexivity).
+      rewrite E. split; [exists (set_phase TDone x); cbn [tm_insts]; rewrite Hs, upd_app_mid; reflexivity|].
+      eapply (pinv_set_done s _ (length pre) x (set_phase TDone)); eauto.
+    - assert (E : tm_step s (TDeliver (length pre)) = {| tm_handler := tm_handler s; tm_h := tm_h s; tm_v := tm_v s; tm_cur := tm_cur s;
+                    tm_insts := upd (tm_insts s) (length pre) set_sent; tm_delivered := (length pre, ti_h x, ti_v x) :: tm_delivered s |})
+        by (unfold tm_step; rewrite Ex, Ep; reflexivity).
+      rewrite E. split; [exists (set_sent x); cbn [tm_insts]; rewrite Hs, upd_app_mid; reflexivity|].
+      eapply (pinv_set_done s _ (length pre) x set_sent); eauto. }
+  destruct Hs' as ((x' & Hi) & I').
+  replace (S (length pre)) with (length (pre ++ [x'])) by (rewrite app_length; cbn; lia).
+  apply IH; [rewrite Hi, <- app_assoc; reflexivity|exact I'].
+Qed.
+
+Lemma pinv_pstep s o : pinv s -> pinv (tm_pstep s o).
+Proof.
+  intro I. destruct o; cbn [tm_pstep].
+  - apply pinv_register; exact I.
+  - apply (pinv_stop s I).
+  - apply pinv_settle; exact I.
+  - apply pinv_fire_noreader; exact I.
+  - unfold tm_resume. apply (pinv_resume_from (tm_insts s) [] s); [reflexivity|exact I].
+Qed.
+
+Lemma pinv_run ops : pinv (fold_left tm_pstep ops tm_init).
+Proof.
+  assert (G : forall s, pinv s -> pinv (fold_left tm_pstep ops s)).
+  { induction ops as [|o ops IH]; intros s I; cbn [fold_left]; [exact I|]. apply IH. apply pinv_pstep. exact I. }
+  apply G. exact pinv_init.
+Qed.
+
+(* whatever was registered, stopped, fired with or without a reader: once the reader is back nothing is parked in
+   triggerElections - in particular after the final Stop of a shutdown *)
+Theorem nothing_parked_once_the_reader_is_back ops : tm_public_parked (ops ++ [PResume]) = 0%nat.
+Proof.
+  unfold tm_public_parked. rewrite fold_left_app. cbn [fold_left tm_pstep]. apply resume_leaves_nothing_parked. apply pinv_run.
+Qed.
+
+(* ... and after Stop every instance that is still parked has been cancelled, so it gives up (TAbort) without any
+   reader: the shutdown case, where the main loop never reads the channel again *)
+Theorem after_stop_every_parked_instance_gives_up ops i x :
+  nth_error (tm_insts (fold_left tm_pstep (ops ++ [PStop]) tm_init)) i = Some x ->
+  (ti_phase x = TSending -> ti_cancelled x = true) /\ ti_phase x <> TRunning /\ ti_phase x <> TPending.
+Proof.
+  rewrite fold_left_app. cbn [fold_left tm_pstep]. intro H.
+  destruct (pinv_stop _ (pinv_run ops)) as [I C]. specialize (I i x H). rewrite C in I. unfold inst_ok in I.
+  destruct (ti_phase x) eqn:Ep.
+  - destruct I; discriminate.
+  - repeat split; congruence.
+  - contradiction.
+  - destruct I as [I|I]; [discriminate|]. repeat split; congruence.
+  - repeat split; congruence.
+Qed.
